@@ -254,6 +254,13 @@ func gen(tier string, out *vlib.Out) {
 		"new seg 2\nidx 61\nidx 62\nrlock 0 61\nrlock 1 61\ntryrlock 2 61\ntrylock 3 61\nlock 3 61\nrunlock 0 61\nrunlock 1 61\ntrylock 3 61\nrunlock 2 61\ntrylock 3 61\ntryrlock 0 61\ntrylock 0 61\nunlock 3 61",
 		"new seg 7\nidx e994aee580bc\nidx f09f9982f09f9982\nlock 0 e994aee580bc\ntrylock 1 e994aee580bc\ntryrlock 1 e994aee580bc\ntrylock 1 f09f9982f09f9982\nunlock 1 f09f9982f09f9982\nunlock 0 e994aee580bc\nunlock 0 e994aee580bc\nrunlock 0 e994aee580bc",
 		"new seg 1000\nidx -\nidx 00\nidx 6b657931\nidx 6b657932\ntrylock 0 6b657931\ntrylock 1 6b657932\ntrylock 2 6b657931\nunlock 0 6b657931\nunlock 1 6b657932",
+		// maxTokens far above the random range (0..8): a counter narrower than the stated int32, or a conversion
+		// that loses high bits below 2^31, shows as a wrong counter at once (white-box) and as fewer than
+		// maxTokens successful Gets at quiescence (black-box); 2^31-1 is the largest value inside the quantifier
+		"new limit 2147483647\nget 0\nget 1\nput 0\nget 2\nput 1\nput 2\nget 3\nput 3",
+		"new limit 65536\nget 0\nget 1\nput 0\nput 1\nget 2",
+		"new limitstress max=300 g=8 iters=100",
+		"new limitstress max=70000 g=4 iters=100",
 		"new limitstress max=1 g=8 iters=400",
 		"new limitstress max=0 g=4 iters=200",
 		"new segstress size=1 keys=2 g=8 iters=200",
